@@ -1,4 +1,45 @@
-From AK Require Import Base.Prelude Bytes.FabHeaderProofs.
-Theorem C20_stub : forall z, Text.py_int (Text.str_of_Z z) = Some z.
-Proof. exact py_int_str_of_Z. Qed.
-Print Assumptions C20_stub.
+(* C20 - whatever taste accepts, the reader can read completely and
+   consistently.  Statements only. *)
+From AK Require Import Base.Prelude Bytes.Text Bytes.FabHeader Bytes.BinFile
+  Reader.Select Reader.BoxRead Reader.Level Plotfile.TextHeader
+  Taste.Taste Taste.TasteSpec Taste.SoundProofs.
+
+(* If the header line at the recorded offset names the level header's index
+   range and field count and the file holds the announced payload after it,
+   reading all fields returns exactly those bytes with the declared shape. *)
+Theorem C20_box_readable : forall nf f (b : boxrec) h shp,
+  0 <= nf -> 0 <= br_off b -> parse_hdr (readline f (br_off b)) = Some h ->
+  h_lo h = br_lo b -> h_hi h = br_hi b -> h_nc h = nf -> hdr_shape h = Some shp ->
+  Forall (fun d => 0 <= d) shp ->
+  br_off b + blen (readline f (br_off b)) + 8 * zprod shp * nf <= blen f ->
+  read_box f (br_off b) all_fields =
+    Some {| a_shape := shp ++ [nf];
+            a_data := sub (br_off b + blen (readline f (br_off b))) (8 * zprod shp * nf) f |}.
+Proof. exact accepted_box_readable. Qed.
+Print Assumptions C20_box_readable.
+
+(* End to end on an ARBITRARY file the shape check accepts: there is a tiling
+   of the file such that every box whose recorded offset is a tile start and
+   whose header check passed reads back as exactly that tile's payload with
+   the shape the level header declares.
+   PROVISO (forced by the proof; evaluated by the harness on every accepted
+   image): [br_off b = tile_off tiles k].  The validator never compares
+   recorded offsets with the positions found by its sequential walk, so an
+   offset pointing at header-shaped text elsewhere is outside this theorem. *)
+Theorem C20_accepted_file_readable : forall nf ld c name f,
+  lookup name (ld_files ld) = Some f -> file_boxes c name <> [] -> shape_ok_file nf ld c name = true ->
+  0 <= nf -> Forall box_valid (tl (file_boxes c name)) -> payload_nonneg (readline f 0) ->
+  exists tiles, length tiles = length (file_boxes c name) /\ f = concat (map tile_bytes tiles) /\
+    forall k b, nth_error (file_boxes c name) k = Some b -> br_off b = tile_off tiles k ->
+      header_ok nf ld b = true -> box_valid b ->
+      read_box f (br_off b) all_fields =
+        Some {| a_shape := box_shape (br_lo b) (br_hi b) ++ [nf]; a_data := snd (nth k tiles ([], [])) |}.
+Proof. exact accepted_file_readable. Qed.
+Print Assumptions C20_accepted_file_readable.
+
+(* every box of a validated level belongs to a file the walk accepted *)
+Theorem C20_every_box_covered : forall nf ld c b, check_shape nf ld c = true -> In b (cell_boxes c) ->
+  In b (file_boxes c (br_file b)) /\ shape_ok_file nf ld c (br_file b) = true /\
+  exists f, lookup (br_file b) (ld_files ld) = Some f.
+Proof. exact check_shape_box. Qed.
+Print Assumptions C20_every_box_covered.
